@@ -125,6 +125,8 @@ def saturation(rng, n_cases, res):
         if isinstance(v, int) and rng.random() < 0.4:
             if 0 <= v < 2**64: c['carrier'] = rng.choice(['np.uint64', 'arr.uint64', 'fxp.getval'])
             elif -2**63 <= v < 0: c['carrier'] = rng.choice(['np.int64', 'arr.int64'])
+        if isinstance(v, int) and rng.random() < 0.2:
+            c['bias'] = rng.choice([1, -1, 8, -8, 1000]); c['scale'] = rng.choice([1, 1, 2])      # (a scaled object with integer scale and bias: the side is that of (v - bias)/scale)
         gen.append(c)
     run_sat_cases(gen, res)
 
@@ -140,15 +142,18 @@ def run_sat_cases(gen, res):
         elif car == 'np.int64': v_in = np.int64(v)
         elif car == 'arr.int64': v_in = np.array([v], dtype=np.int64)
         elif car == 'fxp.getval': v_in = fx.Fxp(v, False, 64, 0)()
+        skw = {'scale': c['scale'], 'bias': c['bias']} if 'bias' in c else {}
         try:
-            if c['route'] == 'ctor': x = fx.Fxp(v_in, s, nw, nf, rounding=c['r'], overflow='saturate')
+            if c['route'] == 'ctor': x = fx.Fxp(v_in, s, nw, nf, rounding=c['r'], overflow='saturate', **skw)
             else:
-                x = fx.Fxp(None, s, nw, nf, rounding=c['r'], overflow='saturate')
+                x = fx.Fxp(None, s, nw, nf, rounding=c['r'], overflow='saturate', **skw); x.reset()
                 (x if c['route'] == 'call' else x.set_val)(v_in)
             c['_got'] = (lib.codes_of(x)[0], lib.status3(x)[:2])
         except Exception as e:
             res.fail({k: (repr(t) if isinstance(t, float) else t) for k, t in c.items()}, 'C02: storing an out-of-range value under saturate raised %s' % lib.exc_name(e), got=str(e)[:200]); continue
-        cases.append(c); reqs.append([4] + e_fmt(s, nw, nf) + [RMODES.index(c['r']), 0] + e_list([Fraction(v)], e_dy))
+        t = (Fraction(v) - c['bias']) / c['scale'] if 'bias' in c else Fraction(v)
+        if t.denominator & (t.denominator - 1): continue
+        cases.append(c); reqs.append([4] + e_fmt(s, nw, nf) + [RMODES.index(c['r']), 0] + e_list([t], e_dy))
     outs = model_call(reqs)
     for c, out in zip(cases, outs):
         rd = Reader(out); want = rd.lst(rd.z)[0]; so, su = rd.b(), rd.b()
